@@ -13,7 +13,8 @@ vars == << img, ty, user, file, res, phase, truncated >>
 
 Env == [defPT |-> [rn |-> "^18^Fluorine", hlms |-> 6584040, brppm |-> 968600],
         defNM |-> [rn |-> "^99m^Technetium", hlms |-> 21624120, brppm |-> 885000],
-        defOther |-> [rn |-> "Unknown", hlms |-> -1000, brppm |-> -1000000]]
+        defOther |-> [rn |-> "Unknown", hlms |-> -1000, brppm |-> -1000000],
+        db |-> << [mod |-> "PT", rn |-> "^11^Carbon", hlms |-> 1221660, brppm |-> 997500] >>]
 
 Sizes == { << 1, 1, 1 >>, << 1, 2, 3 >>, << 2, 3, 1 >>, << 3, 1, 2 >>, << 2, 2, 2 >> } \cup (IF Deep THEN { << 3, 4, 5 >>, << 1, 5, 4 >> } ELSE { })
 Mins == { << 0, 0, 0 >>, << -2, 1, -3 >>, << 1, -1, -1 >> } \cup (IF Deep THEN { << -7, -8, 5 >>, << 3, 0, -2 >> } ELSE { })
@@ -40,7 +41,7 @@ Exams == { [mod |-> m, orient |-> o, rot |-> o + 2, frames |-> f, rn |-> n[1], h
                startD |-> st[1], startS |-> st[2], startMs |-> st[3]] :
              st \in { << 0, 0, 0 >>, << 14785, 54034, 0 >>, << 0, 86399, 250 >> },
              m \in { "PT", "NM", "Unknown", "MR" }, o \in { 0, 3 }, f \in { << >>, << << 125, 250 >> >>, << << 0, 1000 >>, << 1500, 125 >> >> },
-             n \in { << "Unknown", -1000, -1000000 >>, << "Xx-99", 1234500, 750000 >> },
+             n \in { << "Unknown", -1000, -1000000 >>, << "Xx-99", 1234500, 750000 >>, << "^11^Carbon", 4321500, 500000 >> },
              w \in { << -8, -8 >>, << 0, 5200 >>, << -8, 5200 >>, << 2800, 5200 >> }, c \in { -4, 0, 10 } }
 
 ImgOf(g, nd, pat, A, ex) == [geo |-> g, nd |-> nd, vals |-> [d \in 1..nd |-> Vals(NumVox(g), ((pat + d - 2) % 7) + 1, A)], exam |-> ex]
